@@ -242,7 +242,7 @@ def _b(x: Any) -> Any:
 
 
 def is_sym(x: Any) -> bool:
-    return isinstance(x, (SInt, SReal, SBool))
+    return isinstance(x, (SInt, SReal, SBool)) or type(x).__name__ == "SSqrt"
 
 
 # --------------------------------------------------------------------------
@@ -725,6 +725,12 @@ class SReal:
         return s.__round__(decimals)
 
     def conjugate(s):
+        return s
+
+    def astype(s, t):
+        """numpy scalar API used as np.ceil(x).astype(int)."""
+        if getattr(t, "__name__", "") == "int" or t is builtins.int:
+            return s.trunc()
         return s
 
     @property
@@ -1457,3 +1463,66 @@ def _inputs_phase(self, name: str, N: int = 16, lo_turns: int = -4, hi_turns: in
 
 
 Inputs.phase = _inputs_phase
+
+
+# --------------------------------------------------------------------------
+# SSqrt: sqrt(s) + shift, compared in squared form (no root variable)
+# --------------------------------------------------------------------------
+
+
+class SSqrt:
+    """value = sqrt(s) + shift with s >= 0 a real term.  Only what distance
+    checks need: +/- a real, comparison with a real.  sqrt(s) < r  <=>
+    r > 0 and s < r*r, so every comparison is a polynomial constraint."""
+
+    __slots__ = ("s", "shift")
+
+    def __init__(self, s: Any, shift: Any = 0):
+        self.s = s if isinstance(s, SReal) else SReal(_r(s))
+        self.shift = shift
+
+    def __add__(self, o):
+        o = _np_item(o)
+        if isinstance(o, SSqrt):
+            raise Realise("sqrt + sqrt")
+        return SSqrt(self.s, self.shift + o)
+
+    __radd__ = __add__
+
+    def __sub__(self, o):
+        o = _np_item(o)
+        if isinstance(o, SSqrt):
+            raise Realise("sqrt - sqrt")
+        return SSqrt(self.s, self.shift - o)
+
+    def _r(self, c):
+        c = _np_item(c)
+        if isinstance(c, SSqrt):
+            raise Realise("sqrt compared with sqrt")
+        return c - self.shift
+
+    def __lt__(self, c):
+        r = self._r(c)
+        return AND(r > 0, self.s < r * r)
+
+    def __le__(self, c):
+        r = self._r(c)
+        return AND(r >= 0, self.s <= r * r)
+
+    def __gt__(self, c):
+        return NOT(self.__le__(c))
+
+    def __ge__(self, c):
+        return NOT(self.__lt__(c))
+
+    def __hash__(self):
+        return _proxy_hash("SSqrt")
+
+    def __float__(self):
+        raise Realise("float(SSqrt)")
+
+    def __repr__(self):
+        return "<SSqrt sqrt(%s) + %s>" % (self.s.e, self.shift)
+
+    def __format__(self, spec):
+        return "<symsqrt>"
